@@ -1,2 +1,201 @@
-(* C11 — stub: no theorems yet *)
-From Zap Require Import Base.Wire C11.Model C11.Proofs.
+(* C11 — Sampler admits the first N then every Mth entry per level and message per tick.
+   Only statements closed by [exact]; the proofs are in C11/Proofs.v and C11/ConcProofs.v.
+
+   Vocabulary (C11/Model.v): [outcomes c ops] is what the model of zapcore/sampler.go observes for a
+   history [ops] of Check calls (Log), With derivations and further NewSamplerWithOptions calls
+   (NewRoot) — per Log: the decisions passed to the hook, whether the entry reached the wrapped
+   core, and through how many With contexts.  [spec_outcomes] is the specification: entries are
+   classified (skipped: level disabled; passed: enabled but outside Debug..Fatal; keyed by (sampler
+   family, level, fnv32a(msg) mod 4096) otherwise); per key the earlier stamps are cut into windows
+   (a window opens at the first entry not stamped before the current window's end and ends one tick
+   after that entry's stamp), positions are numbered from 1, and position p is kept iff p <= N or
+   (M > 0 and (p - N) mod M = 0).
+   [wf_run]: Go's typing of the arguments (0 <= N, M <= MaxInt64, tick and stamps are int64), the
+   no_overflow condition (stamp + tick fits in int64) and fewer than 2^64 calls. *)
+From Coq Require Import List Bool ZArith Permutation.
+From Coq.Strings Require Import Byte.
+Import ListNotations.
+From Zap Require Import Base.Wire C11.Model C11.Proofs C11.ConcProofs.
+Open Scope Z_scope.
+
+(* every history: any N, M, tick; any stamps (equal, decreasing, on the window boundary, before the
+   epoch); colliding messages; disabled and out-of-range levels; With-derived cores; several samplers *)
+Theorem C11_sequential : forall c ops, wf_run c ops = true -> outcomes c ops = spec_outcomes c ops.
+Proof. exact sequential_thm. Qed.
+Print Assumptions C11_sequential.
+
+(* the specification's one-pass window state is "cut into windows, number each from 1":
+   for the stamps of one budget, from an open window (e, p): the stamps before e continue the
+   numbering at p + 1; the first stamp t that is not before e is position 1 of the window ending at t + tick *)
+Theorem C11_windows : forall N M tick e p ts,
+  key_decs N M tick (Some (e, p)) ts =
+  let '(w, rest) := take_window e ts in
+  number N M (p + 1) w ++
+  match rest with [] => [] | t :: r => keeps N M 1 :: key_decs N M tick (Some (t + tick, 1)) r end.
+Proof. exact key_decs_window. Qed.
+Print Assumptions C11_windows.
+
+(* ... and [spec_decs] on the entries of one budget is exactly that *)
+Theorem C11_spec_one_key : forall c k es pre,
+  Forall (fun e => se_cls e = CKey k) es ->
+  spec_decs c pre es =
+  map dec_of_bool (key_decs (c_first c) (c_thereafter c) (c_tick c) (wstate (c_tick c) (hist k pre)) (map se_tn es)).
+Proof. exact spec_decs_one_key. Qed.
+Print Assumptions C11_spec_one_key.
+
+(* budgets are independent: the outcomes of the entries of budget k are those prescribed for the
+   subsequence of budget-k entries alone (messages colliding under fnv32a mod 4096 are one budget) *)
+Theorem C11_key_independent : forall c k ops, wf_run c ops = true ->
+  let es := sentries ops in
+  map snd (filter (fun p => has_key k (fst p)) (combine es (outcomes c ops))) =
+  outcomes_of (spec_decs c [] (filter (has_key k) es)) (filter (has_key k) es).
+Proof. intros c k ops. exact (subsequence_thm c (has_key k) ops (has_key_closed k)). Qed.
+Print Assumptions C11_key_independent.
+
+(* entries at disabled levels consume no budget (deleting them changes no other outcome) and are
+   neither decided nor forwarded *)
+Theorem C11_disabled_no_budget : forall c ops, wf_run c ops = true ->
+  let es := sentries ops in
+  map snd (filter (fun p => counts_budget (fst p)) (combine es (outcomes c ops))) =
+  outcomes_of (spec_decs c [] (filter counts_budget es)) (filter counts_budget es).
+Proof. intros c ops. exact (subsequence_thm c counts_budget ops counts_budget_closed). Qed.
+Print Assumptions C11_disabled_no_budget.
+
+Theorem C11_disabled_silent : forall c ops, wf_run c ops = true ->
+  Forall (fun p => se_cls (fst p) = CSkip -> snd p = {| o_hooks := []; o_fwd := false; o_ctx := 0 |})
+         (combine (sentries ops) (outcomes c ops)).
+Proof. exact disabled_silent. Qed.
+Print Assumptions C11_disabled_silent.
+
+(* enabled entries with a level outside Debug..Fatal pass unsampled: forwarded, hook not called *)
+Theorem C11_out_of_range_pass : forall c ops, wf_run c ops = true ->
+  Forall (fun p => se_cls (fst p) = CPass -> snd p = {| o_hooks := []; o_fwd := true; o_ctx := se_depth (fst p) |})
+         (combine (sentries ops) (outcomes c ops)).
+Proof. exact out_of_range_pass. Qed.
+Print Assumptions C11_out_of_range_pass.
+
+(* the hook is called at most once per entry (exactly once per decided entry, by C11_sequential),
+   with the decision actually applied: LogSampled iff forwarded *)
+Theorem C11_hook_once : forall c ops, wf_run c ops = true -> forallb hook_matches (outcomes c ops) = true.
+Proof. exact hook_once. Qed.
+Print Assumptions C11_hook_once.
+
+(* messages are distinguished only by fnv32a mod 4096: replacing messages by colliding ones changes nothing *)
+Theorem C11_collide_share : forall c f ops, (forall m, bucket (f m) = bucket m) -> wf_run c ops = true ->
+  outcomes c (map (rename f) ops) = outcomes c ops.
+Proof. exact collide_share. Qed.
+Print Assumptions C11_collide_share.
+
+(* With-derived cores share their parent's budget *)
+Theorem C11_with_shares : forall c ops, no_new_root ops = true -> wf_run c ops = true ->
+  map decided (outcomes c ops) = map decided (outcomes c (map via_parent ops)).
+Proof. exact with_shares. Qed.
+Print Assumptions C11_with_shares.
+
+(* ---- concurrent use: Load / Add / Store / CAS of IncCheckReset as separate atomic steps ---- *)
+
+(* the sequential model is the atomic-step machine run by a lone goroutine *)
+Theorem C11_solo_refines : forall c R cn t,
+  let '(c', n) := inc_check_reset (c_tick c) {| resetAt := R; cnt := cn |} t in
+  let fin := crun c (cinit R cn [t]) (repeat 0%nat 5) in
+  g_reset fin = resetAt c' /\ g_cnt fin = cnt c' /\
+  g_thr fin = [{| t_tn := t; t_pc := PDone; t_ret := Some n; t_hooks := [decision c n];
+                  t_fwd := if dropped (s_first c) (s_thereafter c) n then 0%nat else 1%nat |}].
+Proof. exact solo_refines. Qed.
+Print Assumptions C11_solo_refines.
+
+(* per-entry accounting for EVERY schedule and any stamps (window resets may race): at every point
+   each entry has at most one decision, one hook call carrying it, and is forwarded iff sampled *)
+Theorem C11_accounting : forall c R cn tns sched,
+  Forall (fun t => acct_ok c t = true) (g_thr (crun c (cinit R cn tns) sched)).
+Proof. exact accounting_thm. Qed.
+Print Assumptions C11_accounting.
+
+Theorem C11_accounting_done : forall c t, acct_ok c t = true -> is_done t = true ->
+  exists n, t_ret t = Some n /\ t_hooks t = [decision c n] /\
+            t_fwd t = (if dropped (s_first c) (s_thereafter c) n then 0 else 1)%nat.
+Proof. exact acct_done. Qed.
+Print Assumptions C11_accounting_done.
+
+(* inside an open window (every stamp before resetAt = R, counter at c0): for every schedule that lets
+   all calls return, the values returned by the Adds are a permutation of c0+1 .. c0+k, so the number of
+   sampled entries (= hook calls with LogSampled = forwarded entries) is exactly the number the
+   sequential specification keeps for k further entries of that window, in whatever order *)
+Theorem C11_atomic_exact : forall c R c0 tns sched,
+  wf_cfg c = true -> 0 <= c0 -> c0 + Z.of_nat (length tns) < two64 ->
+  Forall (fun t => t < R) tns ->
+  let fin := crun c (cinit R c0 tns) sched in
+  all_done fin = true ->
+  Permutation (rets (g_thr fin)) (zseq (c0 + 1) (length tns)) /\
+  n_sampled (all_hooks (g_thr fin)) =
+    count_true (key_decs (c_first c) (c_thereafter c) (c_tick c) (Some (R, c0)) tns) /\
+  total_fwd (g_thr fin) = n_sampled (all_hooks (g_thr fin)) /\
+  length (all_hooks (g_thr fin)) = length tns /\
+  g_reset fin = R /\ g_cnt fin = c0 + Z.of_nat (length tns).
+Proof. exact atomic_exact_thm. Qed.
+Print Assumptions C11_atomic_exact.
+
+(* closed form of the specification: of the first L entries of a window, min(L, N) + (L - N) / M are kept *)
+Theorem C11_kept_count : forall N M (L : nat), 0 <= N -> 0 <= M ->
+  Z.of_nat (count_true (map (keeps N M) (zseq 1 L))) =
+  Z.min (Z.of_nat L) N + (if M =? 0 then 0 else Z.max 0 (Z.of_nat L - N) / M).
+Proof. exact kept_count_thm. Qed.
+Print Assumptions C11_kept_count.
+
+(* ---- the code before the fix (cells started with resetAt = 0), kept as documentation ---- *)
+Theorem C11_sequential_orig_refuted : ~ (forall c ops, wf_run c ops = true -> outcomes_orig c ops = spec_outcomes c ops).
+Proof. exact sequential_orig_refuted. Qed.
+Print Assumptions C11_sequential_orig_refuted.
+
+Theorem C11_sequential_orig_partial : forall c ops,
+  wf_run c ops = true -> stamps_ge 0 ops = true -> outcomes_orig c ops = spec_outcomes c ops.
+Proof. exact sequential_orig_partial. Qed.
+Print Assumptions C11_sequential_orig_partial.
+
+(* ---- wire: the oracle the driver runs is the proved property ---- *)
+Theorem C11_wire : forall i, wf i = true -> spec i (model i) = true.
+Proof. exact spec_model. Qed.
+Print Assumptions C11_wire.
+
+(* ---- non-vacuity ---- *)
+Definition ex_entry (core : nat) (lvl : Z) (msg : bytes) (tn : Z) (en : bool) : op :=
+  Log {| e_core := core; e_lvl := lvl; e_msg := msg; e_tn := tn; e_en := en |}.
+Definition ex_cfg : cfg := {| c_first := 2; c_thereafter := 3; c_tick := 10 |}.
+(* N = 2, M = 3, tick = 10: one key, stamps 0 0 5 9 9 9 9 | 10 (new window) 19 19 | 20; a disabled entry
+   and an out-of-range one in between; a With-derived core and a second sampler *)
+Definition ex_ops : list op :=
+  [ex_entry 0 0 [x61] 0 true; ex_entry 0 0 [x61] 0 true; ex_entry 0 0 [x61] 5 true; ex_entry 0 0 [x61] 9 false;
+   ex_entry 0 0 [x61] 9 true; ex_entry 0 0 [x61] 9 true; With 0; ex_entry 1 0 [x61] 9 true; ex_entry 1 7 [x61] 9 true;
+   ex_entry 1 0 [x61] 10 true; ex_entry 0 0 [x61] 19 true; ex_entry 0 0 [x61] 19 true; NewRoot; ex_entry 2 0 [x61] 19 true;
+   ex_entry 0 0 [x61] 20 true].
+Example C11_example_wf : wf_run ex_cfg ex_ops = true.
+Proof. vm_compute. reflexivity. Qed.
+Example C11_example :
+  map (fun o => (o_hooks o, o_fwd o, o_ctx o)) (outcomes ex_cfg ex_ops) =
+  [([2], true, 0%nat); ([2], true, 0%nat); ([1], false, 0%nat); ([], false, 0%nat);
+   ([1], false, 0%nat); ([2], true, 0%nat); ([1], false, 0%nat); ([], true, 1%nat);
+   ([2], true, 1%nat); ([2], true, 0%nat); ([1], false, 0%nat); ([2], true, 0%nat);
+   ([2], true, 0%nat)].
+Proof. vm_compute. reflexivity. Qed.
+
+(* fnv32a: "msg-5" and "msg-269" collide mod 4096 (bucket 3288) but not as 32-bit hashes *)
+Example C11_example_collision :
+  fnv32a [x6d; x73; x67; x2d; x35] = 3311475928 /\ fnv32a [x6d; x73; x67; x2d; x32; x36; x39] = 699735256 /\
+  bucket [x6d; x73; x67; x2d; x35] = 3288 /\ bucket [x6d; x73; x67; x2d; x32; x36; x39] = 3288.
+Proof. vm_compute. repeat split; reflexivity. Qed.
+
+(* the atomic-step machine can express inexact counts: three goroutines racing a window reset
+   (all stamped 5, resetAt = 0, N = 2, M = 0): two of them are told "2", all three are sampled,
+   where a sequential run keeps two.  The open-window hypothesis of C11_atomic_exact is what excludes this. *)
+Definition race_cfg : cfg := {| c_first := 2; c_thereafter := 0; c_tick := 10 |}.
+Definition race_sched : list nat := [0; 1; 0; 0; 2; 2; 1; 1; 1; 0; 0; 1; 1; 2; 2]%nat.
+Example C11_example_reset_race :
+  let fin := crun race_cfg (cinit 0 0 [5; 5; 5]) race_sched in
+  all_done fin = true /\ rets (g_thr fin) = [1; 2; 2] /\ n_sampled (all_hooks (g_thr fin)) = 3%nat /\
+  count_true (key_decs 2 0 10 None [5; 5; 5]) = 2%nat.
+Proof. vm_compute. repeat split; reflexivity. Qed.
+(* and inside an open window the same three goroutines, under the same schedule, are exact *)
+Example C11_example_open_window :
+  let fin := crun race_cfg (cinit 15 1 [5; 5; 5]) race_sched in
+  all_done fin = true /\ rets (g_thr fin) = [2; 4; 3] /\ n_sampled (all_hooks (g_thr fin)) = 1%nat.
+Proof. vm_compute. repeat split; reflexivity. Qed.
